@@ -92,6 +92,8 @@ for op in ("remove", "add", "update", "sample"):
     for n in QUICK_SIZES + THOROUGH_SIZES:
         if op == "add" and n in (16, 32):
             continue
+        if op == "sample" and n > 24:      # measured: sample at n = 28 takes 890 s, beyond that the 900 s budget is exceeded (undecided, never a violation)
+            continue
         cans = CAN[op] if n in (7, 13) else []
         UNITS.append(unit(op, n, cans, in_tiers=("quick", "thorough") if n in QUICK_SIZES else ("thorough",)))
 UNITS.append(unit("add", 0))
@@ -111,7 +113,7 @@ UNITS.append(dict(name="c12_user_atlas_clear", template="C12/atlas_clear.c", mod
 ASSUMPTIONS = [
     "weights are exact integers (machine arithmetic treated as mathematical): floating-point rounding drift of the running sums after long edit histories is NOT decided",
     "r*total is modelled as ANY exact value in [0,total] (0 for r==0, total for r==1, strictly inside for 0<r<1, total>0); with all weights even, odd values stand for non-integer reals",
-    "one concrete element count per solver process (quick: 0..16, thorough: 0..32); contents, weights, arguments fully symbolic",
+    "one concrete element count per solver process (quick: 0..16, thorough: 0..32, sample(): 0..24); contents, weights, arguments fully symbolic",
     "exceptions: 'throw' is modelled as setting a flag and returning; operator new does not throw",
 ]
 TRUSTED = [
